@@ -1,16 +1,8 @@
 (* Closed computations over the regenerated type tables + the guesser agreement. *)
 From Coq Require Import String List NArith ZArith Bool.
-From JS Require Import Base.Res Spec.Decimal Spec.TypeVocab Model.Number Model.TypeGuess Gen.TypeTables.
+From JS Require Import Base.Res Spec.Decimal Spec.TypeVocab Model.Number Model.TypeGuess Gen.TypeTables Model.TypeSoft.
 Import ListNotations.
 Local Open Scope string_scope.
-
-Fixpoint assoc {A} (k : string) (l : list (string * A)) : option A :=
-  match l with [] => None | (x, v) :: r => if String.eqb x k then Some v else assoc k r end.
-
-Definition soft (a b : string) : bool :=
-  match assoc a soft_rows with Some row => smem b row | None => false end.
-Definition is_valid_type (s : string) : bool := smem s valid_keys.
-Definition token_of_stype (t : string) : string := match assoc t stype_token with Some x => x | None => "?" end.
 
 Lemma forallb2_forall {A} (f : A -> A -> bool) (l : list A) :
   forallb (fun a => forallb (f a) l) l = true -> forall a b, In a l -> In b l -> f a b = true.
